@@ -60,8 +60,20 @@ func Check(c *vf.Ctx, prefix, name string, inputs [][]byte, f F) {
 		pan, msg, _ = vf.Try(func() { out = f(in) })
 		return
 	}
-	for _, x := range inputs {
-		for _, y := range inputs {
+	// reference outputs: the first call ever made for each input, each on a buffer nobody touches again
+	base := make([][][]byte, len(inputs))
+	keep := make([][]byte, len(inputs))
+	for i, x := range inputs {
+		keep[i] = append([]byte(nil), x...)
+		o, p, m := call(keep[i])
+		if p {
+			c.Check(prefix+"/no-panic", false, func() string { return fmt.Sprintf("%s(%s) panicked: %s", name, vf.HexS(x), m) })
+			return
+		}
+		base[i] = snap(o)
+	}
+	for xi, x := range inputs {
+		for yi, y := range inputs {
 			c.Add("purity_pairs", 1)
 			o1, p1, m1 := call(append([]byte(nil), x...))
 			if p1 {
@@ -78,7 +90,7 @@ func Check(c *vf.Ctx, prefix, name string, inputs [][]byte, f F) {
 				return fmt.Sprintf("%s(%s) returned %s; after %s(%s) the same returned slices read %s", name, vf.HexS(x), show(s1), name, vf.HexS(y), show(o1))
 			})
 			o2, p3, m3 := call(append([]byte(nil), x...))
-			c.Check(prefix+"/same-input-same-output-after-other-call", !p3 && equal(o2, s1), func() string {
+			c.Check(prefix+"/same-input-same-output-after-other-call", !p3 && equal(o2, s1) && equal(s1, base[xi]), func() string {
 				return fmt.Sprintf("%s(%s) = %s; then %s(%s); then %s(%s) = %s (panic=%v %s)", name, vf.HexS(x), show(s1), name, vf.HexS(y), name, vf.HexS(x), show(o2), p3, m3)
 			})
 			if p3 {
@@ -97,12 +109,13 @@ func Check(c *vf.Ctx, prefix, name string, inputs [][]byte, f F) {
 			// the caller recycles its input buffer in place
 			if len(x) == len(y) && len(x) > 0 {
 				buf := append([]byte(nil), x...)
+				call(append([]byte(nil), y...)) // make sure the call on buf is not answered from a memo of an earlier f(x)
 				if _, p, _ := call(buf); !p {
 					copy(buf, y)
 					oy, p5, m5 := call(buf)
-					ry, p6, _ := call(append([]byte(nil), y...))
-					c.Check(prefix+"/input-buffer-recycled-in-place", p6 || (!p5 && equal(oy, snap(ry))), func() string {
-						return fmt.Sprintf("%s(buf=%s), then buf overwritten in place with %s: %s(buf) = %s, but %s(fresh copy) = %s (panic=%v %s)", name, vf.HexS(x), vf.HexS(y), name, show(oy), name, show(ry), p5, m5)
+					ry, p6 := base[yi], false
+					c.Check(prefix+"/input-buffer-recycled-in-place", p6 || (!p5 && equal(oy, ry)), func() string {
+						return fmt.Sprintf("%s(buf=%s), then buf overwritten in place with %s: %s(buf) = %s, but the first %s of that input gave %s (panic=%v %s)", name, vf.HexS(x), vf.HexS(y), name, show(oy), name, show(ry), p5, m5)
 					})
 				}
 			}
